@@ -555,8 +555,160 @@ def gen_structure(docs_links, docs_slack):
     return rules, fors, direction
 
 
+def _only(stmts):
+    return [x for x in stmts if not is_void0(x) and x.get('kind') != 'NullStmt']
+
+
+def _call_name(n):
+    n = strip(n)
+    if n.get('kind') in ('CXXMemberCallExpr', 'CallExpr'):
+        c = strip(n['inner'][0])
+        return c.get('name') or c.get('referencedDecl', {}).get('name')
+    return None
+
+
+def gen_scope(d_scope, d_autolink, d_noderange):
+    """`~AutoLinkScope` (valcvt-link.h), `FlatConverter::AutoLink` (flat/converter.h), `NodeRange::ExtendableBy/TryExtendBy/
+    ExtendBy`, `IndexRange::IsSingleIndex`: the boolean conditions are translated, the control skeleton around them is matched
+    statement by statement (anything else: TranslateError)"""
+    out = []
+    tr = Tr(d_noderange, {'locals': {}})
+    # IndexRange::IsSingleIndex : return beg_==end_-1
+    f = find_method(d_noderange, 'IndexRange', 'IsSingleIndex')
+    b = _only(body_of(f))
+    if len(b) != 1 or b[0].get('kind') != 'ReturnStmt':
+        raise TranslateError('IndexRange::IsSingleIndex is no longer a single return')
+    cond = tr.bool(b[0]['inner'][0], Env({'this.beg_': 'b', 'this.end_': 'e'}))
+    out.append('/-- `IndexRange::IsSingleIndex` -/\ndef isSingleIndex (b e : Nat) : Bool :=\n  %s\n' % cond)
+    f = find_method(d_noderange, 'NodeRange', 'IsSingleIndex')
+    b = _only(body_of(f))
+    if not (len(b) == 1 and b[0].get('kind') == 'ReturnStmt' and _call_name(b[0]['inner'][0]) == 'IsSingleIndex'):
+        raise TranslateError('NodeRange::IsSingleIndex does not forward to IndexRange::IsSingleIndex')
+    # NodeRange::ExtendableBy : pvn_==nr.pvn_ && ir_.end_==nr.ir_.beg_
+    f = find_method(d_noderange, 'NodeRange', 'ExtendableBy')
+    b = _only(body_of(f))
+    if len(b) != 1 or b[0].get('kind') != 'ReturnStmt':
+        raise TranslateError('NodeRange::ExtendableBy is no longer a single return')
+
+    class TrR(Tr):
+        def key(self, n):
+            n = strip(n)
+            if n.get('kind') == 'MemberExpr':
+                base = strip(n['inner'][0])
+                if base.get('kind') == 'MemberExpr' and base.get('name') == 'ir_':
+                    return Tr.key(self, base) + '.' + n['name']
+            return Tr.key(self, n)
+    trr = TrR(d_noderange, {'locals': {}})
+    env = Env({'this.pvn_': 'a.1', 'nr.pvn_': 'b.1', 'this.ir_.beg_': 'a.2.1', 'this.ir_.end_': 'a.2.2', 'nr.ir_.beg_': 'b.2.1', 'nr.ir_.end_': 'b.2.2'})
+    cond = trr.bool(b[0]['inner'][0], env)
+    out.append('/-- `NodeRange::ExtendableBy` on ranges (node, begin, end) -/\ndef extendableBy (a b : Nat × Nat × Nat) : Bool :=\n  %s\n' % cond)
+    # TryExtendBy : if (!ExtendableBy(nr)) return false; ExtendBy(nr); return true;
+    f = find_method(d_noderange, 'NodeRange', 'TryExtendBy')
+    b = _only(body_of(f))
+    ok = (len(b) == 3 and b[0].get('kind') == 'IfStmt' and strip(b[0]['inner'][0]).get('opcode') == '!' and
+          _call_name(strip(b[0]['inner'][0])['inner'][0]) == 'ExtendableBy' and _call_name(b[1]) == 'ExtendBy' and b[2].get('kind') == 'ReturnStmt')
+    if not ok:
+        raise TranslateError('NodeRange::TryExtendBy changed shape')
+    f = find_method(d_noderange, 'NodeRange', 'ExtendBy')
+    b = _only(body_of(f))
+    e0 = strip(b[0]) if len(b) == 1 else {}
+    if not (e0.get('kind') == 'BinaryOperator' and e0.get('opcode') == '=' and trr.key(e0['inner'][0]) == 'this.ir_.end_' and trr.key(e0['inner'][1]) == 'nr.ir_.end_'):
+        raise TranslateError('NodeRange::ExtendBy is no longer `ir_.end_ = nr.ir_.end_`')
+    # FlatConverter::AutoLink
+    f = find_method(d_autolink, 'FlatConverter', 'AutoLink')
+    b = _only(body_of(f))
+    if not (len(b) == 2 and b[0].get('kind') == 'IfStmt' and _call_name(b[0]['inner'][0]) == 'DoingAutoLinking' and b[1].get('kind') == 'ReturnStmt'):
+        raise TranslateError('FlatConverter::AutoLink changed shape')
+    inner = _only(b[0]['inner'][1].get('inner', []))
+    if not (len(inner) == 1 and inner[0].get('kind') == 'IfStmt' and len(inner[0]['inner']) == 2):
+        raise TranslateError('FlatConverter::AutoLink: body of the guard changed')
+    c = strip(inner[0]['inner'][0])
+    if not (c.get('kind') == 'BinaryOperator' and c.get('opcode') == '||' and _call_name(c['inner'][0]) == 'empty'
+            and strip(c['inner'][1]).get('opcode') == '!' and _call_name(strip(c['inner'][1])['inner'][0]) == 'TryExtendBy'
+            and _call_name(strip(strip(strip(c['inner'][1])['inner'][0])['inner'][0])['inner'][0]) == 'back'
+            and _call_name(inner[0]['inner'][1]) == 'push_back'):
+        raise TranslateError('FlatConverter::AutoLink: condition is not `targets.empty() || !targets.back().TryExtendBy(nr)` -> push_back')
+    out.append('/-- `FlatConverter::AutoLink(nr)`: the collected target ranges afterwards (`doing` = `DoingAutoLinking()`) -/\n'
+               'def autoLink (doing : Bool) (targets : List (Nat × Nat × Nat)) (nr : Nat × Nat × Nat) : List (Nat × Nat × Nat) :=\n'
+               '  if doing then\n'
+               '    (if targets.isEmpty || !(extendableBy (targets.getLastD (0, 0, 0)) nr) then targets ++ [nr]\n'
+               '     else targets.dropLast ++ [((targets.getLastD (0, 0, 0)).1, (targets.getLastD (0, 0, 0)).2.1, nr.2.2)])\n'
+               '  else targets\n')
+    # ~AutoLinkScope
+    f = find_method(d_scope, 'AutoLinkScope', '~AutoLinkScope', kinds=('CXXDestructorDecl',))
+    b = _only(body_of(f))
+    if not (len(b) == 3 and b[0].get('kind') == 'DeclStmt' and _call_name(b[0]['inner'][0]['inner'][0]) == 'GetAutoLinkTargets'
+            and b[1].get('kind') == 'IfStmt' and _call_name(b[2]) == 'TurnOffAutoLinking'):
+        raise TranslateError('~AutoLinkScope changed shape')
+    ifs = b[1]['inner']
+    if not (ifs[0].get('kind') == 'DeclStmt' and _call_name(ifs[0]['inner'][0]['inner'][0]) == 'size'):
+        raise TranslateError('~AutoLinkScope: guard is not `if (auto sz = targets.size())`')
+    body = _only([x for x in ifs if x.get('kind') == 'CompoundStmt'][0].get('inner', []))
+    if not (len(body) == 1 and body[0].get('kind') == 'IfStmt' and len(body[0]['inner']) == 3):
+        raise TranslateError('~AutoLinkScope: expected a single if/else inside the guard')
+    c = strip(body[0]['inner'][0])
+    if not (c.get('kind') == 'BinaryOperator' and c.get('opcode') == '&&' and strip(c['inner'][0]).get('opcode') == '=='
+            and _call_name(c['inner'][1]) == 'IsSingleIndex' and _call_name(strip(strip(c['inner'][1])['inner'][0])['inner'][0]) == 'front'):
+        raise TranslateError('~AutoLinkScope: condition is not `N==sz && targets.front().IsSingleIndex()`')
+    eq = strip(c['inner'][0])
+    lit = [strip(x) for x in eq['inner'] if strip(x).get('kind') == 'IntegerLiteral']
+    if len(lit) != 1:
+        raise TranslateError('~AutoLinkScope: N==sz without a literal')
+    N = lit[0]['value']
+
+    def link_of(stmts):
+        st = _only(stmts.get('inner', [])) if stmts.get('kind') == 'CompoundStmt' else [stmts]
+        if len(st) != 1:
+            raise TranslateError('~AutoLinkScope: branch with %d statements' % len(st))
+        e = strip(st[0])
+        loop = False
+        if e.get('kind') == 'CXXForRangeStmt':
+            loop = True
+            txt = json.dumps(e)
+            if '"targets"' not in txt:
+                raise TranslateError('~AutoLinkScope: range-for is not over `targets`')
+            e = strip(_only([x for x in e['inner'] if x and x.get('kind') == 'CompoundStmt'][0].get('inner', []))[0])
+        if _call_name(e) != 'AddEntry':
+            raise TranslateError('~AutoLinkScope: branch does not call AddEntry')
+        getter = _call_name(strip(strip(e['inner'][0])['inner'][0]))
+        if 'GetAutoLinkSource' not in json.dumps(e):
+            raise TranslateError('~AutoLinkScope: entry source is not GetAutoLinkSource()')
+        return loop, getter
+    l1, g1 = link_of(body[0]['inner'][1])
+    l2, g2 = link_of(body[0]['inner'][2])
+    if l1 or not l2:
+        raise TranslateError('~AutoLinkScope: expected single AddEntry in the then-branch and a loop over targets in the else-branch')
+    name = lambda g: g[3:] if g.startswith('Get') else g
+    out.append('/-- `~AutoLinkScope`: the link entries it registers, as (link, source range, target range) -/\n'
+               'def scopeClose (src : Nat × Nat × Nat) (targets : List (Nat × Nat × Nat)) : List (String × (Nat × Nat × Nat) × (Nat × Nat × Nat)) :=\n'
+               '  if targets.length != 0 then\n'
+               '    (if (%s == targets.length) && isSingleIndex (targets.headD (0, 0, 0)).2.1 (targets.headD (0, 0, 0)).2.2 then\n'
+               '       [("%s", src, targets.headD (0, 0, 0))]\n'
+               '     else targets.map fun t => ("%s", src, t))\n'
+               '  else []\n' % (N, name(g1), name(g2)))
+    return out
+
+
 TU1 = '#define NDEBUG 1\n#define MP_DATE 20240320\n#include "mp/valcvt-base.h"\nnamespace c19tu { std::string use1(const mp::pre::VCString &v) { mp::pre::VCString w(v); w = v; return v.MakeCountedName(); } }\n'
 TU2 = '#define NDEBUG 1\n#define MP_DATE 20240320\n#include "nl-reader.cc"\n#include "problem.cc"\n'
+TU4 = '''#define NDEBUG 1
+#define MP_DATE 20240320
+#include "mp/valcvt.h"
+namespace c19tu {
+struct FakeCvt2 {
+  mp::pre::CopyLink *cl; mp::pre::One2ManyLink *ol; mp::pre::NodeRange src; std::vector<mp::pre::NodeRange> tg;
+  void SetAutoLinkSource(mp::pre::NodeRange nr) { src = nr; }
+  const std::vector<mp::pre::NodeRange>& GetAutoLinkTargets() const { return tg; }
+  bool DoingAutoLinking() const { return src.IsValid(); }
+  mp::pre::CopyLink& GetCopyLink() { return *cl; }
+  mp::pre::One2ManyLink& GetOne2ManyLink() { return *ol; }
+  mp::pre::NodeRange GetAutoLinkSource() const { return src; }
+  void TurnOffAutoLinking() { src.Invalidate(); tg.clear(); }
+};
+}
+template class mp::pre::AutoLinkScope<c19tu::FakeCvt2>;
+'''
+TU5 = '#define NDEBUG 1\n#define MP_DATE 20240320\n#include "mp/flat/converter.h"\n'
 TU3 = '''#define NDEBUG 1
 #define MP_DATE 20240320
 #include "mp/valcvt.h"
@@ -576,7 +728,7 @@ template class mp::pre::RangeCon2Slack<c19tu::FakeCvt, mp::LinConRange>;
 def main(repo, out, work):
     os.makedirs(work, exist_ok=True)
     inc = [os.path.join(repo, 'include'), os.path.join(repo, 'src')]
-    for nm, txt in (('c19_tu1.cc', TU1), ('c19_tu2.cc', TU2), ('c19_tu3.cc', TU3)):
+    for nm, txt in (('c19_tu1.cc', TU1), ('c19_tu2.cc', TU2), ('c19_tu3.cc', TU3), ('c19_tu4.cc', TU4), ('c19_tu5.cc', TU5)):
         open(os.path.join(work, nm), 'w').write(txt)
     d1 = clang_dump(os.path.join(work, 'c19_tu1.cc'), 'mp::pre::VCString', inc)
     d2a = clang_dump(os.path.join(work, 'c19_tu2.cc'), 'mp::NameProvider::name', inc)
@@ -590,6 +742,10 @@ def main(repo, out, work):
     parts += gen_nameprovider(d2a)
     parts += gen_itemname(d2b)
     parts += gen_slack(d3)
+    d5 = clang_dump(os.path.join(work, 'c19_tu4.cc'), 'mp::pre::AutoLinkScope', inc)
+    d6 = clang_dump(os.path.join(work, 'c19_tu5.cc'), 'mp::FlatConverter::AutoLink', inc)
+    d7 = clang_dump(os.path.join(work, 'c19_tu4.cc'), 'mp::pre::NodeRange', inc) + clang_dump(os.path.join(work, 'c19_tu4.cc'), 'mp::pre::IndexRange', inc)
+    parts += gen_scope(d5, d6, d7)
     rules, fors, direction = gen_structure([d for d in d4], d3)
     parts.append('/-- classes derived from `BasicLink` and how each implements `PresolveNames` -/\ndef linkRules : List (String × String) :=\n  [%s]\n'
                  % ',\n   '.join('("%s", "%s")' % r for r in rules))
